@@ -13,6 +13,8 @@ R14.2 (inventory, recomputed from the type-checked program) a *mutable handle* i
       constructor / Default of that type); `Table::get_mut` is called only from methods of mutable handles.
 R14.3 every mutable handle is invariant in its value-type parameters.
 R14.4 the only unsafe impls of auto traits are Send / Sync for Table, bounded by P, T: Send resp. Sync.
+R14.7 a function that takes a mutable handle by reference returns no view / iterator / reference whose lifetime is the handle's own
+      lifetime parameter rather than that of the borrow (such a value would coexist with later mutable uses of the handle).
 R14.6 unsafe inventory: outside inner.rs every unsafe operation is a call of one of the crate's own unsafe mutable-handle
       constructors or of Table::get_mut (no transmute, no raw pointers, no foreign unsafe function).
 R14.5 single visit: in every step of every `*_mut` traversal `get_mut` is applied only to the index (indices) of the entry
@@ -36,6 +38,7 @@ def declare(rep):
     rep.rule("R14.2", "mutable-handle inventory: witnesses exist for each; constructors only from exclusive receivers; get_mut callers are handle methods")
     rep.rule("R14.3", "mutable handles invariant in their value-type parameters")
     rep.rule("R14.4", "unsafe impl Send/Sync only for Table, with the P,T: Send / Sync bounds")
+    rep.rule("R14.7", "a function borrowing a mutable handle returns nothing tied to the handle's own lifetime")
     rep.rule("R14.6", "outside inner.rs the only unsafe operations are the crate's own handle constructors and Table::get_mut")
     rep.rule("R14.5", "get_mut only on the indices of the entry popped in the same step, one per table")
 
@@ -201,6 +204,47 @@ def run_config(ctx, rep, cfg, F):
         else:
             rep.bad("R14.4", "unsafe impl %s for %s" % (tr, F.short_ty(i["self_ty"])), "bounds", "unsafe impl %s for %s with bounds %s: only Table may carry "
                     "unsafe auto-trait impls, and only with P, T: %s" % (tr, F.short_ty(i["self_ty"]), sorted(preds), tr), config=cfg)
+    # ---- R14.7: nothing borrowed from a mutable handle outlives that borrow
+    def regions_in(ti, depth=0):
+        """regions mentioned in a type: [(region, what)]"""
+        t = F.types[ti]
+        out = []
+        if depth > 6:
+            return out
+        if t["t"] == "ref":
+            out.append((t["r"], "&" + ("mut " if t["m"] else "") + F.short_ty(t["i"])))
+            out += regions_in(t["i"], depth + 1)
+        elif t["t"] in ("adt", "tuple", "fndef"):
+            for a in t.get("a", []):
+                if isinstance(a, str) and a.startswith("'"):
+                    out.append((a, F.short_ty(ti)))
+                elif isinstance(a, int):
+                    out += regions_in(a, depth + 1)
+        elif t["t"] in ("slice", "array", "ptr"):
+            out += regions_in(t["i"], depth + 1)
+        return out
+    n_borrow = 0
+    for f in F.lib_fns():
+        if (f.get("impl_trait") or "").endswith("::Iterator"):
+            continue        # next(&mut self) legitimately yields items of the iterator's own lifetime: soundness is R14.5 (single visit)
+        for ti in f["inputs"]:
+            t = F.types[ti]
+            if t["t"] != "ref":
+                continue
+            inner = F.types[t["i"]]
+            if inner["t"] != "adt" or inner["p"] not in mut:
+                continue
+            h_lts = {a for a in inner.get("a", []) if isinstance(a, str) and a.startswith("'")}
+            n_borrow += 1
+            esc = [(r, what) for r, what in regions_in(f["output"]) if r in h_lts and r != t["r"]]
+            short = F.short_of[f["path"]]
+            if esc:
+                rep.bad("R14.7", short, "outlives-borrow", "%s takes `%s` but returns `%s` tied to the handle's own lifetime %s instead of to the borrow: what it returns "
+                        "stays usable after the mutable handle is used again (a shared and a mutable path to the same entries)"
+                        % (short, t["s"], esc[0][1], esc[0][0].split("/")[0]), config=cfg)
+            else:
+                rep.ok("R14.7", short, "returns nothing that outlives the borrow of the handle")
+    rep.floor("functions borrowing a mutable handle (%s)" % cfg, n_borrow, 10)
     # ---- R14.6: unsafe operations outside inner.rs are calls of the crate's own unsafe constructors / accessor only
     from ..facts import find_all
     n_unsafe_calls = 0
